@@ -266,6 +266,27 @@ def run_case(case, seed):
                     trans += O + 2
                     if bad:
                         V("exact-adjoint", name, "adjoint is not C-linear in its array argument on probe %s (err %.3g): imaginary part dropped or conjugated" % bad[0])
+        # the Linops' own adjoints (A.H is a different code path than the adjoint functions above)
+        if O > 0 and not viol:
+            for lname, arg_shape, cap, refM in (("ConvolveData", dshape, ff, Dm.conj().T), ("ConvolveFilter", fshape, dd, Fm.conj().T)):
+                try:
+                    AH = getattr(sp.linop, lname)(arg_shape, cap, **kw).H
+                except Exception:
+                    continue
+                if list(AH.ishape) != oshape or list(AH.oshape) != list(arg_shape):
+                    V("output-shape", "linop.%s.H" % lname, "A.H maps %s->%s, expected %s->%s" % (list(AH.ishape), list(AH.oshape), oshape, list(arg_shape)))
+                    continue
+                try:
+                    MAH = dense.dense_linop(AH)
+                    trans += O
+                except dense.ShapeError as e:
+                    V("output-shape", "linop.%s.H" % lname, str(e))
+                    continue
+                except Exception:
+                    continue
+                e_ = dense.relerr(MAH, refM)
+                if not e_ <= 1e-9:
+                    V("exact-adjoint", "linop.%s.H" % lname, "max|M(A.H) - M^H|/max|M| = %.3g" % e_)
         # component-wise accuracy on data whose real and imaginary parts live on very different scales (1e9 vs 1), with a
         # real-valued operand stored in a complex dtype: each output component is a short sum of products, so its error is
         # bounded by a few ulps of the sum of the ABSOLUTE products that enter THAT component (Higham's bound); a rewrite
